@@ -1250,8 +1250,14 @@ func funMid(s string, start, end int) (string, error) {
 	if start < 0 {
 		start = 0
 	}
+	if start > len(s) {
+		start = len(s)
+	}
 	if end > len(s) {
 		end = len(s)
+	}
+	if end < start {
+		end = start
 	}
 	return s[start:end], nil
 }
